@@ -201,7 +201,52 @@ def gen(rng, tier):
                 hist.append({"x": xs, "line": sl})
             cases.append({"lines": lines, "meta": {"kind": "histr", "lower": lower, "width": width, "nb": nb, "sigma": sigma, "k": kf, "ref": ref, "history": hist},
                           "nontrivial": True})
+    return cases + gen_tsf(rng, tier)
+
+
+def gen_tsf(rng, tier):
+    """moving centres of a restraint that has a time-step factor: at every step at which the restraint is evaluated its centre is the one
+    the schedule prescribes for that step number"""
+    cases = []
+    for k in range(6 if tier == "quick" else 48):
+        staged = k % 2 == 1
+        n = [1, 2, 3][(k // 2) % 3]
+        nsteps = rng.randint(4, 9); nstages = rng.randint(2, 3) if staged else 0
+        c0 = rng.uniform(-1, 1); c1 = c0 + rng.choice([-1.0, 1.0]) * rng.uniform(2.0, 6.0)
+        tl = " timeStepFactor %d\n" % n if n > 1 else ""
+        b = ("harmonic {\n name r\n colvars x0\n centers %s\n targetCenters %s\n targetNumSteps %d\n%s forceConstant 1.0\n%s}\n"
+             % (num(c0), num(c1), nsteps, " targetNumStages %d\n" % nstages if staged else "", tl))
+        lines = ["m.new 1", "M.noclock", cfg(inj_cv("x0", 0, None, None, 1.0)), cfg(b)]
+        total = nsteps * (nstages if staged else 1) + 2 * n + 3
+        marks = []
+        for t in range(total):
+            lines += [pos(0, 0.0, 0.0, rng.uniform(-1, 1)), "m.step", "r.dump r"]; marks.append(len(lines))
+        cases.append({"lines": lines, "meta": {"kind": "tsf", "staged": staged, "n": n, "nsteps": nsteps, "nstages": nstages, "c0": c0, "c1": c1, "marks": marks},
+                      "nontrivial": n > 1})
     return cases
+
+
+def oracle_tsf(m, out):
+    n = m["n"]
+    for t, ln in enumerate(m["marks"]):
+        if n > 1 and t % n != 0:
+            continue                      # the restraint sleeps: its centre is whatever the last evaluation left
+        if m["staged"]:
+            lam = (min(m["nstages"], (t - 1) // m["nsteps"]) / float(m["nstages"])) if t >= 1 else 0.0
+        else:
+            lam = min(t, m["nsteps"]) / float(m["nsteps"])
+        want = m["c0"] + (m["c1"] - m["c0"]) * lam
+        got = vals(out, ln, "centers")
+        if got is None:
+            return [(None, "no centre reported")]
+        if abs(got[0] - want) > 1e-9 * max(1.0, abs(want)):
+            sig = None
+            if n > 1:
+                sig = ("staged centres of a restraint with timeStepFactor advance only at evaluated steps with (step - first) % targetNumSteps == 1" if m["staged"]
+                       else "moving centres of a restraint with a timeStepFactor that does not divide targetNumSteps stop short of the target")
+            return [(sig, "restraint with timeStepFactor %d, centres moving from %r to %r in %s: at step %d (an evaluated step) the centre is %r, the schedule prescribes %r"
+                     % (n, m["c0"], m["c1"], ("%d stages of %d steps" % (m["nstages"], m["nsteps"])) if m["staged"] else ("%d steps" % m["nsteps"]), t, got[0], want))]
+    return []
 
 
 def distribution(cases):
@@ -213,6 +258,9 @@ def distribution(cases):
         d["kind"][m["kind"]] = d["kind"].get(m["kind"], 0) + 1
         if m["kind"] in ("abmd", "histr"):
             d["steps"] += len(m["history"]); continue
+        if m["kind"] == "tsf":
+            key = "%s/factor %d" % ("staged" if m["staged"] else "continuous", m["n"]); d["mode"][key] = d["mode"].get(key, 0) + 1
+            d["steps"] += len(m["marks"]); continue
         d["mode"][m["mode"]] = d["mode"].get(m["mode"], 0) + 1
         d["restarts"] += sum(1 for h in m["history"] if h["boundary"] == "restart")
         d["cont"] += sum(1 for h in m["history"] if h["boundary"] == "cont")
@@ -229,6 +277,8 @@ def oracle(case, out):
     """closed forms: the centre / force constant prescribed for the absolute step, the documented potential at the value,
     work as the sum of force x increment, staged TI as a mean."""
     m = case["meta"]; viol = []
+    if m.get("kind") == "tsf":
+        return oracle_tsf(m, out)
     if m.get("kind") == "abmd":
         # the ratchet: the reference follows the variable forward while it has not passed the stopping value
         sgn = -1.0 if m["dec"] else 1.0
